@@ -351,11 +351,12 @@ theorem in_gate_iff (env : Env) (sup : Support) (is : Bool) (t : TyName) :
   all_goals exact ⟨fun h => by simp [inErrs] at h, fun h => by cases h⟩
 
 
-/-- documented `self` shapes: structs by value (never out-structs), opaques by reference, enums -/
+/-- documented `self` shapes (book/src/structs.md: structs and enums may have methods "which capture `self`
+    by-value"): structs by value (never out-structs), opaques by reference, enums by value -/
 inductive SelfOk (env : Env) : SelfParam → Prop
   | struct (ty fields) : env.get ty = some (.struct false fields) → SelfOk env ⟨ty, false⟩
   | opaqueRef (ty) : env.get ty = some .opaqueTy → SelfOk env ⟨ty, true⟩
-  | enum (ty r) : env.get ty = some .enumTy → SelfOk env ⟨ty, r⟩
+  | enum (ty) : env.get ty = some .enumTy → SelfOk env ⟨ty, false⟩
 
 theorem self_gate_iff (env : Env) (s : SelfParam) : selfErrs env s = [] ↔ SelfOk env s := by
   obtain ⟨ty, r⟩ := s
@@ -373,12 +374,14 @@ theorem self_gate_iff (env : Env) (s : SelfParam) : selfErrs env s = [] ↔ Self
       | opaqueTy =>
         cases r <;> simp [hg] at h
         exact SelfOk.opaqueRef ty hg
-      | enumTy => exact SelfOk.enum ty r hg
+      | enumTy =>
+        cases r <;> simp [hg] at h
+        exact SelfOk.enum ty hg
   · intro h
     cases h with
     | struct _ fields hg => simp [selfErrs, hg]
     | opaqueRef _ hg => simp [selfErrs, hg]
-    | enum _ _ hg => simp [selfErrs, hg]
+    | enum _ hg => simp [selfErrs, hg]
 
 /-- documented return shapes: nothing / unit, `Result` only at top level with unit-or-output arms,
     `Option` of a pointer, of unit, or of an output payload, or a plain output type -/
@@ -425,25 +428,31 @@ theorem module_gate_iff (sup : Support) (ts : List TypeDecl) :
   simp only [List.flatMap_eq_nil_iff]
 
 /-- a method is accepted only if `self`, every parameter (a trailing `&mut DiplomatWrite` apart) and the
-    return type are documented shapes and no lifetime is elided in the return type -/
+    return type are documented shapes, a method that writes its output returns nothing besides (unit, `Option<()>`
+    or `Result<(), E>`), and no lifetime is elided in the return type -/
 theorem method_gate (env : Env) (sup : Support) (m : Method) :
     methodErrs env sup m = [] ↔
       ((∀ s, m.self = some s → SelfOk env s)
        ∧ (∀ p ∈ inputParams m, InOk env sup false p.2)
        ∧ RetOk env sup m.ret
+       ∧ (takesWrite m = true → writeRetOk m.ret = true)
        ∧ elisionErrs env m = []) := by
+  have hwrite : writeErrs m = [] ↔ (takesWrite m = true → writeRetOk m.ret = true) := by
+    unfold writeErrs
+    cases takesWrite m <;> cases writeRetOk m.ret <;> simp
   have hshape : shapeErrs env sup m = [] ↔
-      ((∀ s, m.self = some s → SelfOk env s) ∧ (∀ p ∈ inputParams m, InOk env sup false p.2) ∧ RetOk env sup m.ret) := by
+      ((∀ s, m.self = some s → SelfOk env s) ∧ (∀ p ∈ inputParams m, InOk env sup false p.2) ∧ RetOk env sup m.ret
+        ∧ (takesWrite m = true → writeRetOk m.ret = true)) := by
     unfold shapeErrs
-    simp only [List.append_eq_nil_iff, List.flatMap_eq_nil_iff, ret_gate_iff, in_gate_iff]
+    simp only [List.append_eq_nil_iff, List.flatMap_eq_nil_iff, ret_gate_iff, in_gate_iff, hwrite]
     constructor
-    · rintro ⟨⟨hs, hp⟩, hr⟩
-      refine ⟨?_, hp, hr⟩
+    · rintro ⟨⟨⟨hs, hp⟩, hr⟩, hw⟩
+      refine ⟨?_, hp, hr, hw⟩
       intro s hs'
       rw [hs'] at hs
       exact (self_gate_iff env s).mp hs
-    · rintro ⟨hs, hp, hr⟩
-      refine ⟨⟨?_, hp⟩, hr⟩
+    · rintro ⟨hs, hp, hr, hw⟩
+      refine ⟨⟨⟨?_, hp⟩, hr⟩, hw⟩
       cases hm : m.self with
       | none => rfl
       | some s => exact (self_gate_iff env s).mpr (hs s hm)
@@ -453,14 +462,14 @@ theorem method_gate (env : Env) (sup : Support) (m : Method) :
     rw [if_pos he]
     constructor
     · intro h
-      obtain ⟨a, b, c⟩ := hshape.mp he'
-      exact ⟨a, b, c, h⟩
-    · intro h; exact h.2.2.2
+      obtain ⟨a, b, c, d⟩ := hshape.mp he'
+      exact ⟨a, b, c, d, h⟩
+    · intro h; exact h.2.2.2.2
   · rw [if_neg he]
     have hne : shapeErrs env sup m ≠ [] := by simpa using he
     constructor
     · intro h; exact absurd h hne
-    · intro h; exact absurd (hshape.mpr ⟨h.1, h.2.1, h.2.2.1⟩) hne
+    · intro h; exact absurd (hshape.mpr ⟨h.1, h.2.1, h.2.2.1, h.2.2.2.1⟩) hne
 
 /-- elision: a return type without anonymous lifetimes never trips the check -/
 theorem no_elision_ok (env : Env) (m : Method) (h : retHasAnon m = false) :
@@ -520,6 +529,8 @@ example : inErrs envEx supEx false (.opt (.ref (.named "a") false (.named "Op"))
 example : outErrs envEx supEx false false (.opt (.box (.named "Op")) .std) = [] := by decide
 example : retErrs envEx supEx (some (.res (.named "St") .unit .std)) = [] := by decide
 example : inErrs envEx supEx false (.box (.named "Op")) = [.boxInInput] := by decide
+example : moduleErrs supEx [⟨"En", .enumTy, [⟨"m", some ⟨"En", true⟩, [], none⟩]⟩] = [("En::m", .selfRefEnum)] := by decide
+example : moduleErrs supEx [⟨"Op", .opaqueTy, [⟨"m", some ⟨"Op", true⟩, [("w", .write)], some (.prim .u32)⟩]⟩] = [("Op::m", .writeWithValue)] := by decide
 example : moduleErrs supEx [⟨"Op", .opaqueTy, [⟨"m", some ⟨"Op", false⟩, [], none⟩]⟩] = [("Op::m", .selfOpaqueByValue)] := by decide
 
 end DiplomatModel.Props.C05
